@@ -240,7 +240,7 @@ func tokenisationRule(c *Check, rule string, fams map[string][]*StoreWrite) {
 			c.Req(verdict == "closed", rule, funcName(fn)+"/"+cs.Name+" of an iterator key with a computed prefix", cs.Ins.Pos(), "prefix "+trunc(sh)+" ends in the separator",
 				"the iterator key is matched against the computed prefix "+trunc(sh)+", which ends in a variable component and not in the separator: a name that extends another one (eth / ethereum) matches the shorter one's prefix and its entries are mis-read or skipped")
 		}
-		for _, cs := range c.P.CallsInOwn(fn) {
+		for _, cs := range c.P.CallsIn(fn) { // (copies of an inlined parsing helper included: there the subject is the iterator key)
 			if cs.Name != "strings.Split" && cs.Name != "strings.SplitN" && cs.Name != "bytes.Split" && cs.Name != "bytes.SplitN" {
 				continue
 			}
